@@ -8,3 +8,6 @@ def check(repo, rep, tier):
   # if none of them computes x - x' in the integer dtype of the query
   from . import c06
   c06.rule_int_arith(repo, rep, methods=QUERY_VIEWS)
+  # pair_distance agrees with the other views on EVERY pair of a batch
+  from . import c06b
+  c06b.rule_pair_distance_covers(repo, rep)
